@@ -18,6 +18,7 @@ From OxiVerif Require Import DD.Table DD.TableProofs DD.Sem DD.Build DD.BuildPro
 From Coq Require Import Permutation.
 From OxiVerif Require Import Mgr.Conc Mgr.ConcProofs Mgr.ConcGc Mgr.ConcGcProofs
   Mgr.OomOwn Mgr.OomOwnProofs Mgr.OomOwnSafe Mgr.OomOwnGc Mgr.OomOwnThms Mgr.OomOwnExamples.
+From OxiVerif Require Import DD.Quant Mgr.OomOwnQ Mgr.OomOwnQProofs Mgr.OomOwnQSafe Mgr.OomOwnQThms.
 Import ListNotations.
 
 (** ** 1. never a wrong handle: a result of the bounded run is literally the
@@ -643,3 +644,141 @@ Theorem C14_own_example_garbage :
   end.
 Proof. exact ex3o_not_garbage. Qed.
 Print Assumptions C14_own_example_garbage.
+
+
+(** ** 10. C14x - the same four statements for the functions that keep guards alive ACROSS
+    a fallible call (model Mgr/OomOwnQ.v): [prepare_fill_o] = `substitute_prepare` (the
+    `EdgeVecDropGuard` around the cloned replacement edges while a missing variable node is
+    created), [substitute_o] = `substitute_edge` (`substitute_prepare`, then `substitute`
+    with the two recursor guards alive during `apply_ite`, then the vector guard dropped),
+    [quant_o] = `quant` (guards alive during `apply_bin` when the level is quantified) *)
+
+Theorem C14_own_balance_prepare : forall terms nl tid cap s slots,
+  match prepare_fill_o terms nl tid cap false s slots 0 [] with
+  | VOk s' v => Permutation (cown s') (toks tid v ++ cown s) /\ ext s s' /\
+                (CInv KBdd terms nl s -> CInv KBdd terms nl s')
+  | VErr s' => Permutation (cown s') (cown s) /\ ext s s' /\
+               (CInv KBdd terms nl s -> CInv KBdd terms nl s')
+  | VStuck => True
+  end.
+Proof. exact own_balance_prepare. Qed.
+Print Assumptions C14_own_balance_prepare.
+
+Theorem C14_own_balance_substitute : forall terms nl tid cap gt C cget cadd par fuel s (c : C) f slots id,
+  match substitute_o terms nl tid cap gt C cget cadd par guards_code fuel s c f slots id with
+  | OOk s' _ r => Permutation (cown s') (tokr tid r ++ cown s) /\ ext s s' /\
+                  (CInv KBdd terms nl s -> CInv KBdd terms nl s')
+  | OErr s' _ => Permutation (cown s') (cown s) /\ ext s s' /\
+                 (CInv KBdd terms nl s -> CInv KBdd terms nl s')
+  | OStuck => True
+  end.
+Proof. exact own_balance_substitute. Qed.
+Print Assumptions C14_own_balance_substitute.
+
+Theorem C14_own_balance_quant : forall terms nl tid cap gt C cget cadd par fuel s (c : C) q f vars,
+  match quant_o terms nl tid cap gt C cget cadd par guards_code fuel s c q f vars with
+  | OOk s' _ r => Permutation (cown s') (tokr tid r ++ cown s) /\ ext s s' /\
+                  (CInv KBdd terms nl s -> CInv KBdd terms nl s')
+  | OErr s' _ => Permutation (cown s') (cown s) /\ ext s s' /\
+                 (CInv KBdd terms nl s -> CInv KBdd terms nl s')
+  | OStuck => True
+  end.
+Proof. exact own_balance_quant. Qed.
+Print Assumptions C14_own_balance_quant.
+
+Theorem C14_own_counts_substitute : forall terms nl tid cap gt C cget cadd par fuel s (c : C) f slots id s',
+  CInv KBdd terms nl s -> terms_unique_b terms = true ->
+  ores_st (substitute_o terms nl tid cap gt C cget cadd par guards_code fuel s c f slots id) = Some s' ->
+  CInv KBdd terms nl s' /\ WF (to_snap KBdd terms nl s') /\ rc_exact_b (to_snap KBdd terms nl s') [] = true.
+Proof. exact own_counts_substitute. Qed.
+Print Assumptions C14_own_counts_substitute.
+
+Theorem C14_own_counts_quant : forall terms nl tid cap gt C cget cadd par fuel s (c : C) q f vars s',
+  CInv KBdd terms nl s -> terms_unique_b terms = true ->
+  ores_st (quant_o terms nl tid cap gt C cget cadd par guards_code fuel s c q f vars) = Some s' ->
+  CInv KBdd terms nl s' /\ WF (to_snap KBdd terms nl s') /\ rc_exact_b (to_snap KBdd terms nl s') [] = true.
+Proof. exact own_counts_quant. Qed.
+Print Assumptions C14_own_counts_quant.
+
+Theorem C14_own_total_substitute : forall terms nl tid cap gt C cget cadd par,
+  bterms_ok terms -> lossy cget cadd ->
+  forall fuel s (c : C) f slots id, CInv KBdd terms nl s -> COK terms nl C cget (cn s) c ->
+  stored terms (cn s) f -> (forall e, In (Some e) slots -> stored terms (cn s) e) ->
+  length slots <= nl -> S nl <= fuel ->
+  match substitute_o terms nl tid cap gt C cget cadd par guards_code fuel s c f slots id with
+  | OOk s' c' r => stored terms (cn s') r /\ COK terms nl C cget (cn s') c'
+  | OErr s' c' => COK terms nl C cget (cn s') c'
+  | OStuck => False
+  end.
+Proof. exact own_total_substitute. Qed.
+Print Assumptions C14_own_total_substitute.
+
+Theorem C14_own_total_quant : forall terms nl tid cap gt C cget cadd par,
+  bterms_ok terms -> lossy cget cadd ->
+  forall fuel s (c : C) q f vars, CInv KBdd terms nl s -> COK terms nl C cget (cn s) c ->
+  stored terms (cn s) f -> stored terms (cn s) vars -> S nl <= fuel ->
+  match quant_o terms nl tid cap gt C cget cadd par guards_code fuel s c q f vars with
+  | OOk s' c' r => stored terms (cn s') r /\ COK terms nl C cget (cn s') c'
+  | OErr s' c' => COK terms nl C cget (cn s') c'
+  | OStuck => False
+  end.
+Proof. exact own_total_quant. Qed.
+Print Assumptions C14_own_total_quant.
+
+Theorem C14_own_err_collect_substitute : forall terms nl tid cap gt C cget cadd par fuel s (c : C) f slots id s' c',
+  CInv KBdd terms nl s ->
+  substitute_o terms nl tid cap gt C cget cadd par guards_code fuel s c f slots id = OErr s' c' ->
+  (forall id,
+    ((exists nd', cfind (cn (collect KBdd terms nl s')) id = Some nd') <->
+     (exists nd, cfind (cn s) id = Some nd) /\
+     (exists o, In o (cown s) /\ creach (cn s) (eref (snd o)) (RN id))) /\
+    (forall nd', cfind (cn (collect KBdd terms nl s')) id = Some nd' ->
+       exists nd, cfind (cn s) id = Some nd /\ cl nd' = cl nd /\ cch nd' = cch nd)) /\
+  (forall id, cfind (cn (collect KBdd terms nl s')) id = cfind (cn (collect KBdd terms nl s)) id) /\
+  Permutation (cown (collect KBdd terms nl s')) (cown s).
+Proof. exact own_err_collect_substitute. Qed.
+Print Assumptions C14_own_err_collect_substitute.
+
+Theorem C14_own_err_collect_quant : forall terms nl tid cap gt C cget cadd par fuel s (c : C) q f vars s' c',
+  CInv KBdd terms nl s ->
+  quant_o terms nl tid cap gt C cget cadd par guards_code fuel s c q f vars = OErr s' c' ->
+  (forall id,
+    ((exists nd', cfind (cn (collect KBdd terms nl s')) id = Some nd') <->
+     (exists nd, cfind (cn s) id = Some nd) /\
+     (exists o, In o (cown s) /\ creach (cn s) (eref (snd o)) (RN id))) /\
+    (forall nd', cfind (cn (collect KBdd terms nl s')) id = Some nd' ->
+       exists nd, cfind (cn s) id = Some nd /\ cl nd' = cl nd /\ cch nd' = cch nd)) /\
+  (forall id, cfind (cn (collect KBdd terms nl s')) id = cfind (cn (collect KBdd terms nl s)) id) /\
+  Permutation (cown (collect KBdd terms nl s')) (cown s).
+Proof. exact own_err_collect_quant. Qed.
+Print Assumptions C14_own_err_collect_quant.
+
+(* the seeded slip of substitute_prepare (vector guard created only for the final Ok):
+   x0[x0 := x2] on a table without the variable node of level 1, 2 slots: the cloned
+   replacement edge is leaked - one token more, and after the collection x2 has count 2
+   where a collection of the state before gives 1; the code's placement fails on the same
+   input and satisfies BALANCE *)
+Theorem C14_own_balance_late_vec_refuted : forall p,
+  (match substitute_on ex_terms 3 0 2 p guards_late_vec ex2o (RN 2) [Some (RN 1); None] with
+   | OErr s' _ =>
+       ~ Permutation (cown s') (cown ex2o) /\
+       length (cown s') = S (length (cown ex2o)) /\
+       option_map crc (cfind (cn (collect KBdd ex_terms 3 s')) 1%positive) = Some 2%N /\
+       option_map crc (cfind (cn (collect KBdd ex_terms 3 ex2o)) 1%positive) = Some 1%N
+   | _ => False
+   end) /\
+  own_post ex_terms 3 0 unit ex2o
+    (substitute_on ex_terms 3 0 2 p guards_code ex2o (RN 2) [Some (RN 1); None]) /\
+  ores_code (substitute_on ex_terms 3 0 2 p guards_code ex2o (RN 2) [Some (RN 1); None]) = 1.
+Proof. exact own_balance_late_vec_refuted. Qed.
+Print Assumptions C14_own_balance_late_vec_refuted.
+
+Theorem C14_own_example_subst_quant :
+  CInv KBdd ex_terms 3 ex2o /\
+  (forall p, map (fun cap => oout (substitute_on ex_terms 3 0 cap p guards_code ex2o (RN 2) [Some (RN 1); None])) [2; 3] =
+     [(1, Some 2, Some 2, None, Some true); (0, Some 3, Some 3, Some (RN 1), Some true)]) /\
+  map (fun cap => oout (quant_on ex_terms 3 0 cap false guards_code ex3o QUnique (RN 6) (RN 3))) [6; 7; 8] =
+  [(1, Some 6, Some 5, None, Some true); (1, Some 7, Some 5, None, Some true);
+   (0, Some 8, Some 6, Some (RN 8), Some true)].
+Proof. exact (conj ex2o_inv (conj ex2o_substitute (proj1 ex3o_quant))). Qed.
+Print Assumptions C14_own_example_subst_quant.
